@@ -9,6 +9,7 @@ EXPLANATION = ("C20: every allocation result is NULL-tested before it is derefer
                "themselves; no (rv = f() != K) precedence slips; out-parameters are not read after the callee failed; "
                "local allocations are released on the exits taken when a later step fails."
                " Also: a destroyer that runs the fini slot is called only after the init slot (R8); an object a failing constructor step left registered is not freed (R9); transport teardown slots tolerate the state p_init leaves (R10); init slots do not release what fini releases again (R11); container growth is failure-atomic (R12); half-built reference-counted objects are released with the raw free (R13).")
+EXPLANATION += ' Round 3: a local allocation or delivered object is released or handed on along every path (R6); an owned field is released only after its replacement was allocated (R14).'
 
 ALLOC = ("nni_alloc", "nni_zalloc", "nng_alloc", "nng_zalloc", "nni_strdup", "nng_strdup", "nni_strndup")
 # callees that dereference their pointer arguments (argument indexes)
